@@ -161,6 +161,9 @@ class ParseMCNPCell:
         match_like = self.LIKE_RE.search(parsed_cell[1].lower())
         while match_like:
             like_id = int(float(match_like.group(1)))
+            if like_id not in parsed_cells:
+                raise ParseMCNPCellError(f'LIKE {like_id} BUT refers to a '
+                                         'cell that is not defined')
             like_cell = parsed_cells[like_id]
             parsed_cell = self.apply_but(like_cell, parsed_cell[2])
             match_like = self.LIKE_RE.search(parsed_cell[1].lower())
@@ -309,7 +312,7 @@ class ParseMCNPCell:
         # parameters
         if len(fill_params) == 1:
             trid = int(fill_params[0])
-            fill_params = self.transforms[trid][:12]
+            fill_params = self.get_transform(trid, 'FILL')
             # no need to apply to_cos, MIP takes care of it
         elif len(fill_params) == 3:
             fill_params = [float(param) for param in fill_params[:12]]
@@ -351,6 +354,14 @@ class ParseMCNPCell:
             raise ParseMCNPCellError(msg)
         return lattice
 
+    def get_transform(self, trid, keyword):
+        '''Return the 12 parameters of the TR card number `trid`, referred to
+        by `keyword`.'''
+        if trid not in self.transforms:
+            raise ParseMCNPCellError(f'{keyword} refers to transformation '
+                                     f'TR{trid}, which is not defined')
+        return self.transforms[trid][:12]
+
     def parse_trcl_kw(self, elt, kw_list):
         '''Parse the arguments of the TRCL and *TRCL keywords.'''
         trcl_params = []
@@ -361,7 +372,7 @@ class ParseMCNPCell:
         # parameters
         if len(trcl_params) == 1:
             trid = int(trcl_params[0])
-            trcl_params = self.transforms[trid][:12]
+            trcl_params = self.get_transform(trid, 'TRCL')
             # no need to apply to_cos, MIP takes care of it
         elif len(trcl_params) == 3:
             trcl_params = [mcnp_float(param) for param in trcl_params[:12]]
